@@ -70,31 +70,42 @@ def fuzz_loads(ctx, binary, st, uni, cfg, n_tests, seeds):
 
 def run(ctx):
     binary = ctx.build_adapter("mempool")
-    cfg = "MC_persist_q.cfg" if ctx.tier == "quick" else "MC_persist_t.cfg"
+    plan = ["MC_persist_q.cfg", "MC_persist_b.cfg"] if ctx.tier == "quick" else ["MC_persist_t.cfg", "MC_persist_e.cfg", "MC_persist_b.cfg"]
     nontrivial = lambda p: any(s["a"][0] == "load" and p["steps"][i - 1]["m"]["file"]["recs"] for i, s in enumerate(p["steps"]) if i > 0)
-    st = _mempool.run_scenario(ctx, binary, "C55", "persist", cfg, "MU_std.cfg", nontrivial=nontrivial)
-    _mempool.need(st, [("dump", "ok"), ("load", "ok"), ("load", "failed"), ("tick", "none"), ("prio", "none"), ("unb", "none")], "C55")
-    # vacuity: loads that drop an expired entry, restore a stray prioritisation and an unbroadcast mark, and meet an existing conflict
-    seen = dict(expired=0, stray=0, unb=0, conflict=0, cuts=set())
-    for p in st["paths"]:
-        for k, s in enumerate(p["steps"]):
-            if s["a"][0] != "load" or k == 0:
-                continue
-            pre, post = p["steps"][k - 1]["m"], s["m"]
-            seen["cuts"].add("%s/%s" % (s["a"][1]["kind"], s["a"][1]["sub"]))
-            if s["a"][1]["kind"] == "none":
-                saved = {r["t"] for r in pre["file"]["recs"]}
-                seen["expired"] += bool(saved - set(post["pool"]) and not s["a"][2])
-                seen["stray"] += bool(pre["file"]["stray"])
-                seen["unb"] += bool(post["unb"])
-                seen["conflict"] += bool(s["a"][2] and saved - set(post["pool"]))
-    miss = [k for k in ("expired", "stray", "unb", "conflict") if not seen[k]]
+    # vacuity: loads that drop an expired entry, keep a younger one, restore a stray prioritisation, a fee delta and an unbroadcast mark,
+    # meet an existing conflict, and leave out an entry that Submit rejects at load time (below the minimum relay fee)
+    seen = dict(expired=0, aged=0, stray=0, delta=0, unb=0, conflict=0, unacceptable=0, cuts=set())
+    per = {}
+    first = None
+    for cfg in plan:
+        st = _mempool.run_scenario(ctx, binary, "C55", "persist", cfg, "MU_std.cfg", nontrivial=nontrivial)
+        first = first or (st, cfg)
+        for k, v in st["per"].items():
+            per[k] = per.get(k, 0) + v
+        for p in st["paths"]:
+            for k, s in enumerate(p["steps"]):
+                if s["a"][0] != "load" or k == 0:
+                    continue
+                pre, post = p["steps"][k - 1]["m"], s["m"]
+                seen["cuts"].add("%s/%s" % (s["a"][1]["kind"], s["a"][1]["sub"]))
+                saved = {r["t"]: r for r in pre["file"]["recs"]}
+                gone = set(saved) - set(post["pool"])
+                if s["a"][1]["kind"] == "none":
+                    seen["expired"] += bool(not s["a"][2] and any(saved[t]["time"] <= pre["now"] - 1209600 for t in gone))
+                    seen["aged"] += any(0 < pre["now"] - saved[t]["time"] < 1209600 for t in post["pool"] if t in saved)
+                    seen["stray"] += bool(pre["file"]["stray"])
+                    seen["delta"] += any(saved[t]["d"] for t in post["pool"] if t in saved)
+                    seen["unb"] += bool(post["unb"])
+                    seen["conflict"] += bool(s["a"][2] and gone)
+                seen["unacceptable"] += bool(cfg == "MC_persist_b.cfg" and s["a"][1]["kind"] != "hdr" and 6 in gone and saved[6]["d"] == 0)
+    _mempool.need(dict(per=per), [("dump", "ok"), ("load", "ok"), ("load", "failed"), ("tick", "none"), ("prio", "none"), ("unb", "none")], "C55")
+    miss = [k for k in ("expired", "aged", "stray", "delta", "unb", "conflict", "unacceptable") if not seen[k]]
     if miss:
-        raise vflib.InfraError("vacuity: no undamaged load in the bounded model with: %s" % miss)
+        raise vflib.InfraError("vacuity: no load in the bounded models with: %s" % miss)
     ctx.extra["cut_kinds"] = sorted(seen["cuts"])
-    fuzz_loads(ctx, binary, st, "persist", cfg, 4 if ctx.tier == "quick" else 12, list(range(1, 7 if ctx.tier == "quick" else 25)))
+    fuzz_loads(ctx, binary, first[0], "persist", first[1], 4 if ctx.tier == "quick" else 12, list(range(1, 7 if ctx.tier == "quick" else 25)))
     ctx.assumptions += ["bounded scenario on a 110-block regtest base chain, -acceptnonstdtxn=1, mock time, both nodes on the same chain",
                         "the second node starts with an empty mempool and no prioritisations apart from the listed existing transactions"]
     return ctx.finish(level="model_checking", exhaustive=True,
-                      rule="path cover of every transition of the bounded Mempool graph (histories ending in dump, clock jump, load with every listed "
+                      rule="path cover of every transition of the bounded Mempool graphs (histories ending in dump, clock jump, load with every listed "
                            "damage and existing pool); non-trivial = distinct paths that load a non-empty dump")
